@@ -4,6 +4,8 @@ import (
 	"fmt"
 	"os"
 	"time"
+
+	"verif/core"
 )
 
 // HangLimit is the per-case budget of the watchdog. Cases normally take < 0.2 s.
@@ -40,4 +42,29 @@ func repoDir() string {
 		return d
 	}
 	return "/repo"
+}
+
+// foreignWarmup: in every second shard process the other 2D families are encoded once before the
+// enumeration starts (as ordinary cases of the shard's call sequence, so that a finding that needs
+// them is reproduced through the recorded history / the shard-prefix replay). Helper packages are
+// shared between the families (Galois fields, Reed-Solomon encoders, bit lists): state that one
+// family leaves there must not change what another family draws. The other shards start cold.
+func foreignWarmup(c *core.Ctx, own string) {
+	if c.Shard%2 != 0 {
+		return
+	}
+	for _, w := range []core.Case{
+		{Fam: "qr", S: []byte("WARM UP 123"), P: []int{1, 0}},
+		{Fam: "qr", S: []byte("warm up, bytes"), P: []int{3, 3}},
+		{Fam: "dm", S: []byte("warm up 123456")},
+		{Fam: "az", S: []byte("Warm up 123."), P: []int{33, 0}},
+		{Fam: "az", S: []byte(Filler("Warm up 8-bit words ", 90)), P: []int{33, 0}},
+		{Fam: "pdf", S: []byte("warm up 1234567890123"), P: []int{2}},
+	} {
+		if w.Fam == own {
+			continue
+		}
+		w := w
+		Exec(c, &w)
+	}
 }
